@@ -527,7 +527,8 @@ class Play:
         instances exist)."""
         spec = self.spec
         named = {c["name"] for c in spec["cbs"] if c["attach"] == "name"} | {g for t in spec["trans"] for g in t.get("cond", []) + t.get("unless", [])}
-        on_machine = {c["name"] for c in spec["cbs"] if c["prov"] == "machine"} | {g["name"] for g in spec.get("guards", []) if g["prov"] == "machine"}
+        # (a guard handed over as a function object needs no provider)
+        on_machine = {c["name"] for c in spec["cbs"] if c["prov"] == "machine"} | {g["name"] for g in spec.get("guards", []) if g["prov"] == "machine" or g.get("kind") == "func"}
         missing = sorted(named - on_machine)
         H2 = self.rendered.new_H()
         H2.objs = {}
